@@ -1,5 +1,6 @@
 import RepeVerif.Lemmas.Beve
 import RepeVerif.Gen.Numeric
+import RepeVerif.Gen.Wire
 /-!
 # C08 — Bulk numeric bodies are bit-identical to the generic encoding and decode exactly
 
@@ -31,6 +32,7 @@ clause → theorem
 * marker dispatch cannot misroute ................ `marker_is_beve's`, `regular_never_marker`, `regular_body_on_ref_route`
 * wrong element type rejected .................... `wrong_type_rejected`, `wrong_form_rejected`
 * wrong body format rejected ..................... `wrong_format_rejected`
+* aligned request as a wire frame (with C01) ..... `aligned_frame_any_capacity`
 * a whole call echoes the vector ................. `call_echo`
 -/
 namespace Repe.C08
@@ -429,6 +431,51 @@ theorem complex_streaming_eq_buffered (h : Header) (q : Bytes) {t : ElemTy} {xs 
   · simp only [writeMessageComplexSlice, writeMessageComplexSliceRaw, writeMessageStreaming,
       bodyComplexSlice, ← hl]
     rfl
+
+/-! ### composition with the wire model (C01): the aligned request as a frame -/
+
+/-- The request `Message::builder().id(..)…query_bytes(q).body_aligned_typed_slice(xs).build()`. -/
+def alignedRequest (id : Nat) (nf : Bool) (ec qf : Nat) (q : Bytes) (t : ElemTy) (xs : List Bytes) : Message :=
+  (sliceBuilder id nf ec qf q (bodyAlignedTypedSlice F t q.length xs)).build
+
+/-- `body_aligned_typed_slice` reserves `HEADER_SIZE + query.len()` of headroom so that
+`into_wire_bytes` frames in place.  Whatever capacity the body buffer ends up with (in-place branch or
+fresh buffer — C01's `intoWireBytes`), the wire bytes are `to_vec`'s; every parser of the current
+source (C01's `fromSlice`, owned and view sum forms, both build profiles) returns the request; and in
+those bytes the element block sits, bit for bit, at a frame offset that is a multiple of the element
+alignment. -/
+theorem aligned_frame_any_capacity {t : ElemTy} {xs : List Bytes} (v : Vec t t.width xs)
+    (id : Nat) (nf : Bool) (ec qf : Nat) (q : Bytes) (cap : Nat) (mode : OvMode)
+    (hid : id < 2^64) (hec : ec < 2^32) (hqf : qf < 2^16)
+    (hlen : 48 + q.length + (bodyAlignedTypedSlice F t q.length xs).length < 2^64) :
+    let m := alignedRequest id nf ec qf q t xs
+    let off := 48 + q.length + alignedDataOffset t xs.length (baseOffset F.baseTerms q.length)
+    m.intoWireBytes cap = m.toVec ∧
+    Message.fromSlice Gen.headerSumForm Gen.sliceSumForm mode (m.intoWireBytes cap) = .ok m ∧
+    Message.fromSlice Gen.headerSumForm Gen.viewSumForm mode (m.intoWireBytes cap) = .ok m ∧
+    ((m.intoWireBytes cap).drop off).take (xs.length * t.width) = xs.flatten ∧
+    off % t.align = 0 := by
+  intro m off
+  have wf : m.WF := Builder.build_wf _ hid hec hqf (by show BEVE < 2^16; decide) hlen
+  have e := intoWireBytes_eq_toVec m cap
+  refine ⟨e, ?_, ?_, ?_, ?_⟩
+  · rw [e]; exact fromSlice_toVec _ _ _ m wf
+  · rw [e]; exact fromSlice_toVec _ _ _ m wf
+  · rw [e]
+    have hb : m.toVec = (m.header.encode ++ q) ++ bodyAlignedTypedSlice F t q.length xs := rfl
+    have hl : (m.header.encode ++ q).length = 48 + q.length := by simp
+    rw [hb, show off = (m.header.encode ++ q).length +
+      alignedDataOffset t xs.length (baseOffset F.baseTerms q.length) by rw [hl]]
+    rw [← List.drop_drop, List.drop_left]
+    unfold bodyAlignedTypedSlice encodeAligned
+    rw [encodeAlignedRaw_drop, ← v.blocks.flatten_length, List.take_length]
+  · exact aligned_of_congr v.valid _ _ _ (base_congruent_to_frame_offset q.length)
+      (alignedDataOffset_aligned t xs.length _)
+
+/-- Non-vacuity: a 5-byte path, two f64, capacity smaller and larger than the frame. -/
+example : let m := alignedRequest 7 false 0 1 [0x2f, 1, 2, 3, 4] ⟨0, 3⟩ [[1, 2, 3, 4, 5, 6, 7, 8], [9, 9, 9, 9, 9, 9, 9, 9]]
+    m.intoWireBytes 0 = m.toVec ∧ m.intoWireBytes 4096 = m.toVec ∧ m.toVec.length = 48 + 5 + 3 + 1 + 7 + 16 := by
+  decide
 
 /-! ### a whole call -/
 
